@@ -589,6 +589,7 @@ pub fn run_likely_miri(ctx: &mut Ctx) {
             keys.push((None, None, Some(d32(*r)), *v, "REGION_ONLY"));
         }
     }
+    let mut nth = 0usize;
     for (l, s, r, v, table) in keys {
         let lname = l.clone().unwrap_or_else(|| "und".into());
         if lname == "und" && l.is_some() {
@@ -612,6 +613,12 @@ pub fn run_likely_miri(ctx: &mut Ctx) {
         if got.as_ref() != Some(&want) {
             ctx.viol_total += 1;
             ctx.add_violation("entry", triple_json(&lname, s.as_deref(), r.as_deref()), json!(null), format!("table {} maps the key to {:?}, maximize gives {:?}", table, want, got));
+        }
+        // every key is looked up (all six unsafe lookups, every row); the algebraic laws - several more interpreted calls
+        // each - run on every key in the quick tier (1/16 of the keys) and on every fourth key in the thorough tier
+        nth += 1;
+        if !ctx.quick() && nth % 4 != 0 {
+            continue;
         }
         let mut fails = c07_check_triple(&lname, s.as_deref(), r.as_deref(), false);
         fails.extend(c08_check_triple(None, &lname, s.as_deref(), r.as_deref(), false));
